@@ -14,7 +14,7 @@ RULE = ("SIBLINGS: one abstract configuration (version, pattern (v2 or legacy), 
 ASSUMPTIONS = ["only configurations expressible in both syntaxes are generated (no leading/trailing blanks, no empty strings that INI cannot hold)",
                "the implicit self-pattern legitimately mirrors each sibling's own quoting and is compared against that sibling's own line"]
 COMPONENTS = {"bumpver config loader, cli show/update": "real", "VCS": "FakeRepo", "files": "six real scratch directories per run"}
-CAMPAIGNS = [Siblings("C18", quick=1200, thorough=50000)]
+CAMPAIGNS = [Siblings("C18", quick=2000, thorough=50000)]
 
 
 def sanity_gate(tier, total):
